@@ -120,6 +120,21 @@ def run_job(job, workroot):
     if job.get("keep_text"):
         out["header"], out["source"] = header, source
     if job.get("only_generate"):
+        # determinism within one interpreter: generate again (and after an unrelated model) and hash every text
+        shas = [[out["header_sha"], out["source_sha"]]]
+        if job.get("warmup_defn"):
+            generate(job["warmup_defn"], True, None, 0.1, None)
+        for _ in range(job.get("repeat", 0)):
+            h2, s2 = generate(defn, job["cse"], job.get("k"), job.get("max_dt", 0.1), job.get("decl"))
+            shas.append([hashlib.sha256(h2.encode()).hexdigest(), hashlib.sha256(s2.encode()).hexdigest()])
+        out["shas"] = shas
+        from formak import python as _py
+        syms, model, sensors, pn, sn, cm = G.build(defn, job.get("decl"))
+        pm = _py.compile(model, cm, config=_py.Config(common_subexpression_elimination=job["cse"]))
+        out["py_arglist"] = [str(a) for a in pm.arglist]
+        ekf = _py.compile_ekf(model, pn, sensors, sn, cm, config=_py.Config(common_subexpression_elimination=job["cse"]))
+        out["py_readings"] = {k: [str(r) for r in v.readings] for k, v in sorted(ekf.sensor_models.items())}
+        out["py_sensor_keys_sorted"] = sorted(ekf.sensor_models)
         return out
     d = os.path.join(workroot, "job")
     shutil.rmtree(d, ignore_errors=True)
